@@ -252,8 +252,22 @@ let routes_case (line : string) : string =
       Buffer.add_string buf " ; ") ops;
     Buffer.contents buf
 
+(* ---------------- pool size ---------------- *)
+let pool_case (line : string) : string =
+  match split_on ' ' line with
+  | value :: _ ->
+      let v =
+        if value = "unset" then None
+        else begin
+          let hex = String.sub value 1 (String.length value - 1) in
+          Some (List.init (String.length hex / 2)
+                  (fun i -> n_of_int (int_of_string ("0x" ^ String.sub hex (2 * i) 2))))
+        end in
+      "n=" ^ string_of_z (pool_size v)
+  | [] -> "bad case"
+
 let () =
   let f = match Sys.argv.(1) with
-    | "bufs" -> bufs_case | "routes" -> routes_case
+    | "bufs" -> bufs_case | "routes" -> routes_case | "pool" -> pool_case
     | _ -> failwith "mode" in
   iter_lines (fun l -> print_string (try f l with e -> "model-error " ^ Printexc.to_string e); print_newline ())
